@@ -9,6 +9,10 @@ from vlib.ref import fieldmodel as fm
 from vlib.ref import plane_model as pm
 from vlib.runner import Skip, Violation, expect_raises, hyp, lentil_call
 
+# the check's own calls are issued with keywords or positionally in the documented order (vlib/callforms.py)
+from vlib import callforms as _cf
+lentil = _cf.proxy(lentil)
+
 RULE = ("chains of 1-3 planes (Plane / Pupil / Image) whose amplitude, OPD and mask are each scalar or array "
         "(2-D or segmented 3-D masks), wavefronts with one or many (overlapping) fields, accumulation targets "
         "with drawn prior content and weights; non-trivial = the wavefront holds >= 2 fields or a mask with a "
